@@ -389,8 +389,8 @@ def end_to_end(sh, rng, n):
             elif ex.status in (301, 302, 308, 307):
                 sh.hit('e2e:redirected')
                 # tolerated slashes: following the redirect must hand the handler the conversions of the same segments
-                from urllib.parse import urlsplit, unquote_to_bytes
-                loc = urlsplit(ex.header('Location') or '')
+                from urllib.parse import urlsplit, unquote_to_bytes, urljoin
+                loc = urlsplit(urljoin('http://verif.test/', ex.header('Location') or ''))
                 try:
                     path2 = unquote_to_bytes(loc.path).decode('utf8')
                 except UnicodeError:
